@@ -258,6 +258,45 @@ func (d *dec) extArrayChunks(o *Object, sp *dataspace, lay *layoutMsg, chunkByte
 	if iblk == UndefAddr {
 		return
 	}
+	// The specification does not say how chunk coordinates map to array indices. The reference library
+	// linearises the chunk grid with the unlimited dimension slowest, the other dimensions sized by their
+	// maximum extent; files written by early 1.10 pre-releases (kept in its test suite) size them by the
+	// current extent. Elements are collected first, then the mapping is chosen under which every chunk lies
+	// inside the dataspace (maximum-based preferred).
+	type pending struct {
+		idx uint64
+		e   idxElem
+	}
+	var pend []pending
+	defer func() {
+		if r := recover(); r != nil {
+			panic(r)
+		}
+		curGrid := make([]uint64, rank)
+		for k := range curGrid {
+			curGrid[k] = (sp.dims[k] + o.ChunkDims[k] - 1) / o.ChunkDims[k]
+			if curGrid[k] == 0 {
+				curGrid[k] = 1
+			}
+		}
+		try := func(g []uint64) bool {
+			o.Chunks = o.Chunks[:0]
+			for _, p := range pend {
+				addIndexedChunk(o, p.idx, p.e, g, unlim, rank)
+			}
+			for _, c := range o.Chunks {
+				for k := 0; k < rank; k++ {
+					if c.Offset[k] >= sp.dims[k] {
+						return false
+					}
+				}
+			}
+			return true
+		}
+		if !try(grid) && !try(curGrid) {
+			try(grid)
+		}
+	}()
 	// super block layout
 	nsblks := 1 + int(maxBits) - int(log2floor(dblkMin))
 	type sbInfo struct{ ndblks, dblkNelmts, startIdx, startDblk uint64 }
@@ -280,10 +319,12 @@ func (d *dec) extArrayChunks(o *Object, sp *dataspace, lay *layoutMsg, chunkByte
 	pageElems := uint64(1) << pageBits
 
 	emit := func(idx uint64, e idxElem) {
-		if len(o.Chunks) > 4_000_000 {
+		if len(pend) > 4_000_000 {
 			d.fail("%s at 0x%x: more than 4e6 chunks", hw, a)
 		}
-		addIndexedChunk(o, idx, e, grid, unlim, rank)
+		if e.addr != UndefAddr {
+			pend = append(pend, pending{idx, e})
+		}
 	}
 	_ = maxIdxSet
 
